@@ -941,3 +941,71 @@ def transaction_tasks(tier, role):
                  bounds='TransactionWindowManager::process over <=%d elements (Timestamped / Watermark), the user logic '
                         'answers any TransactionOp per element (CommitAfter(t) with symbolic t)' % L, role=role,
                  opts={'covers': ['committed']}, budget=300)]
+
+
+# ------------------------------------------------------------------------------------ FlatMap
+
+class Expand(PyObj):
+    """user function of flat_map: item -> a Vec of 0..2 derived items (count chosen per element)"""
+    name = 'VerifExpand'
+
+    def __init__(self):
+        self.log = []
+
+    def trait_call(self, ex, trait, method, args):
+        if trait in ('Fn', 'FnMut', 'FnOnce'):
+            from mirsym.models_coll import VecModel
+            item = deref(args[1].fields[0])
+            k = ex.choose(3, 'flat_map fan-out')
+            outs = [Int('u64', item.v * 10 + j) for j in range(k)]
+            self.log.append((item.v, [o.v for o in outs]))
+            return VecModel(outs)
+        if trait == 'Clone':
+            return self
+        return NotImplemented
+
+
+def flat_map_harness(w, iters, max_len):
+    fs = w.impls[(None, 'FlatMap')]['new']
+    new = [f for f in fs if 'FlatMap<' in f.header and 'Keyed' not in f.header][0] if len(fs) > 1 else fs[0]
+    nxt = w.impls[('Operator', 'FlatMap')]['next'][0]
+    hlib.check_se_table(w)
+
+    def h(ex):
+        script = hlib.gen_script(ex, iters, max_len, 'ITW', payload=id_payload, ts_span=(1000, 5))
+        f = Expand()
+        op = ex.call_function(new, [hlib.Upstream(script), f])
+        out = hlib.drive(ex, nxt, [op], 3 * len(script) + 4)
+        sx = lambda: {'script': [repr(e) for e in script], 'fanout': f.log, 'output': [repr(e) for e in out]}
+        hlib.check_grammar(ex, out, iters, 'FlatMap output')
+        hlib.check_wm_contract(ex, out, 'FlatMap output')
+        want = []
+        li = iter(f.log)
+        for e in script:
+            if e.variant in ('Item', 'Timestamped'):
+                pid, kids = next(li)
+                if pid != e.fields[0].v:
+                    raise Violation('flat_map applied the user function out of order', hlib._wit(ex), sx())
+                for kv in kids:
+                    want.append((e.variant, kv, e.fields[1] if e.variant == 'Timestamped' else None))
+            else:
+                want.append((e.variant, None, e.fields[0] if e.variant == 'Watermark' else None))
+        got = [(e.variant, e.fields[0].v if e.variant in ('Item', 'Timestamped') else None,
+                hlib.ts_of(e)) for e in out]
+        if [(a, b) for a, b, _ in got] != [(a, b) for a, b, _ in want]:
+            raise Violation('flat_map output is not the in-order concatenation of the expansions', hlib._wit(ex), sx())
+        for (_, _, tg), (_, _, tw) in zip(got, want):
+            if tw is not None:
+                check(ex, tg.v == tw.v, 'flat_map output does not carry the timestamp of its parent element', sx)
+        if any(len(k) > 1 for _, k in f.log):
+            hlib.cover(ex, 'expanded')
+        return sx()
+    return h
+
+
+def flat_map_tasks(tier, role):
+    it, ln = (2, [2, 1]) if tier == 'quick' else (2, [3, 2])
+    return [Task('flat_map_i%d' % it, 'flat_map_harness', {'iters': it, 'max_len': ln},
+                 bounds='FlatMap::next driven to Terminate; %d iterations x <=%s elements (Item/Timestamped/Watermark), each '
+                        'element expanded to 0..2 items by the user function' % (it, ln), role=role,
+                 opts={'covers': ['expanded']}, budget=300)]
